@@ -188,6 +188,27 @@ def check_purity(rep, fl, rule="R18.2"):
                     writes.append(b.spath)
     rep.check(not bad and not writes and len(hashers) >= 5, rule, fl, "KeyBuilder impls", "pure", "hash_index / hash_conflict / build_key read no clock, RNG or global and do not mutate the builder (%d bodies)" % len(reach),
               "key hashing is not a pure function of the key: %s %s" % (bad, writes))
+    # "however it is borrowed": the key enters the hash through its `Hash` impl only (`Borrow` guarantees that a key and
+    # its borrowed form hash alike) - nothing else about the borrowed value (its size, its address, its type) is used
+    uses_bad = []
+    n_impl = 0
+    for b in hashers:
+        if not (b.raw.get("impl_trait") or "").endswith("KeyBuilder") or b.is_closure or b.arg_count < 2:
+            continue
+        n_impl += 1
+        kv = V(b.local_name.get(2, "key"))
+        for bi, t in b.calls():
+            args = [norm(x) for x in b.call_args(t)]
+            if not any(mentions(a_, kv) for a_ in args):
+                continue
+            c = b.callee_of(t)
+            okc = callee_matches(c, "BuildHasher::hash_one") or callee_matches(c, "Hash::hash") or c.endswith("::hash_one") or c.endswith("Hash>::hash") \
+                or (b.raw.get("impl_trait") or "").endswith("KeyBuilder") and (callee_matches(c, "KeyBuilder::hash_index") or callee_matches(c, "KeyBuilder::hash_conflict") or callee_matches(c, "KeyBuilder::build_key")) \
+                or callee_matches(c, "Borrow::borrow") or callee_matches(c, "Deref::deref")
+            if not okc:
+                uses_bad.append((short(b.spath), short(c)))
+    rep.check(not uses_bad and n_impl >= 2, rule, fl, "KeyBuilder impls", "key only hashed", "the key is handed to its Hash impl (hash_one / Hash::hash) and to nothing else (%d methods)" % n_impl,
+              "a key builder looks at the borrowed key other than through its Hash impl (%s): a key and its borrowed form (String / &str) may map to different (index, conflict) pairs" % uses_bad)
     d = facts.body("<DefaultKeyBuilder<K> as std::default::Default>::default")
     seeds = [bi for bi, t in d.calls() if any(x in d.callee_of(t) for x in ("Rng::gen", "thread_rng"))]
     rep.check(all(not d.in_loop(x) for x in seeds), rule, fl, d, "seed once", "the xx seed is drawn once when the builder is created", "seed drawn in a loop")
@@ -322,6 +343,9 @@ def check_C02(rep, fl):
     # "replaces the value immediately and is never rolled back": a resident entry is written by the caller's own insert
     # only, never later by a queued item
     props_store.keep_sites(rep, fl, props_store.check_removal_inventory, ("*ShardedMap::try_update|callers", "*ShardedMap::try_insert|callers"))
+    # ... which rests on the policy answering `added` for untracked keys only (a tracked key is re-costed, its queued value
+    # is not written over the resident one)
+    props_store.keep_rules(rep, fl, props_policy.check_C01, {"R01.3"})
     props_store.check_lookup_guards(rep, fl)
     check_value_writers(rep, fl)
     check_immediate_effect(rep, fl)
